@@ -132,7 +132,8 @@ def handle (d : DSt) (n : Nat) (line : String) : IO DSt := do
       if !d.haveCase then
         IO.println s!"BADLINE line={n}"; return d
       let p := stepObs d.st op
-      let mo := p.2
+      let mo := p.2.canon
+      let io := io.canon
       let mut d := { d with steps := d.steps + 1 }
       if mo != io then
         if !d.caseMismatch then
